@@ -105,6 +105,10 @@ def run_check(prop, tier, replay=None):
         print("MACHINERY-FAILURE property=%s %s" % (pid, ex))
         core.cleanup_tmproot()
         return 2
+    mf = [f for f in fails if f[1].startswith("M")]      # implementation-shaped model vs code: informational
+    if mf:
+        print("NOTE property=%s the implementation-shaped TLA+ model disagrees with the code on %d record(s) "
+              "(not a property verdict), e.g. %s" % (pid, len(mf), mf[:3]))
     xf = [f for f in fails if f[1].startswith("X")]
     if xf:
         print("MACHINERY-FAILURE property=%s the harness's own model disagrees with reality (not a verdict): %s" % (
@@ -174,6 +178,8 @@ def run_check(prop, tier, replay=None):
                              "failed_clauses_total": len(fails),
                              "failed_clauses_of_this_property": len([f for f in fails if f[1].startswith(pid + ".")])},
         "known_findings_matched": sorted(hit_known),
+        "impl_model_binding": {"records_compared": sum(1 for r in recs if any(c.startswith("M") for c in r.get("clauses", []))),
+                               "disagreements": len(mf)},
         "exhaustive": False,
     }
     cov.update(prop.extra_coverage(tier, cases, recs))
